@@ -901,7 +901,10 @@ def _finalize_parse_info(text, nodes, pos, fullparse):
 
     for node in visit(nodes):
         pos_info = node._metadata.position_info
-        if pos_info:
+
+        # A node that came out of a nested call to "parse" (made by inline
+        # Python code) already has its final position info.
+        if pos_info and not isinstance(pos_info, _PositionInfo):
             start, end = pos_info
             node._metadata.position_info = _PositionInfo(
                 start=position(start),
